@@ -73,6 +73,7 @@ type exec struct {
 	dSlow      int
 	dRej       int
 	dNx        int
+	dP0        int
 	nameUp     string
 	nameSlow   string
 	gate       chan struct{}
@@ -245,6 +246,7 @@ func runPlan(p *plan, workDir string) (out outcome) {
 	x.dSlow = w.AddDest(1, x.nameSlow)
 	x.dRej = w.AddDest(0, nameRej)
 	x.dNx = w.AddDest(0, nameNx)
+	x.dP0 = w.AddDestPort0(0)
 
 	spec := &udpsvc.Spec{ServerProto: p.ServerProto, BatchMode: p.BatchMode, NATTimeout: fmt.Sprintf("%dms", p.NATTimeoutMs),
 		RelayBatchSize: p.RelayBatch, SendChannelCapacity: p.SendChanCap, ClientProto: p.ClientProto, RejectDomains: []string{nameRej},
@@ -465,6 +467,30 @@ func runPlan(p *plan, workDir string) (out outcome) {
 				x.label("keepalive-held")
 			} else {
 				x.label("keepalive-gaps-too-long")
+			}
+		case phRefused:
+			if tunnel {
+				x.label("phase-skipped:refused")
+				break
+			}
+			// N datagrams per session that the relay's outbound socket cannot send (EINVAL for port 0), written
+			// back to back so that several of them share one sendmmsg batch, then a valid datagram behind them
+			x.settled = false
+			for _, c := range x.main {
+				dests := make([]int, ph.N)
+				fills := make([]int, ph.N)
+				for j := range dests {
+					dests[j] = x.dP0
+					fills[j] = 16
+				}
+				c.BurstFills(dests, fills)
+			}
+			x.pacedAll("paced-no-reply", "valid datagram behind refused sends")
+			x.established = true
+			if proxy {
+				x.label("refused-sends:via-upstream")
+			} else {
+				x.label("refused-sends:" + p.BatchMode)
 			}
 		case phSteady:
 			// continuous client traffic with gaps far below the NAT timeout for longer than the NAT timeout:
